@@ -425,7 +425,7 @@ def str_case(draw):
         elif j == 4:
             qs.append({"op": "eval", "e": ("substr", t, ("const", draw(st.sampled_from((0, 1, 2))), 64), ("const", draw(st.sampled_from((0, 1, 2, 2**63))), 64)), "n": 1})
         elif j == 5:
-            qs.append({"op": "eval", "e": draw(st.sampled_from((("to_int", t), ("indexof", t, ("sconst", val[:1]), ("const", 0, 64)), ("indexof", t, ("sconst", ""), ("const", len(val) + 1, 64))))), "n": 1})
+            qs.append({"op": "eval", "e": draw(st.sampled_from((("to_int", t), ("indexof", t, ("sconst", val[:1]), ("const", 0, 64)), ("indexof", t, ("sconst", ""), ("const", len(val) + 1, 64)), ("indexof", t, ("sconst", val[:1]), ("const", 1 << 62, 64)), ("indexof", t, ("sconst", ""), ("const", (1 << 64) - 1, 64))))), "n": 1})
         elif j == 6:
             qs.append({"op": "eval", "e": draw(st.sampled_from((("prefixof", ("sconst", val[:1]), t), ("contains", t, ("sconst", ".")), ("suffixof", ("sconst", val[-1:]), t), ("seq", t, ("sconst", val))))), "n": 2})
         else:
